@@ -6,6 +6,7 @@ require (
 	github.com/gorilla/websocket v1.5.1
 	github.com/grpc-ecosystem/grpc-gateway/v2 v2.19.1
 	github.com/renbou/grpcbridge v0.0.0
+	golang.org/x/net v0.24.0
 	google.golang.org/genproto/googleapis/api v0.0.0-20240412170617-26222e5d3d56
 	google.golang.org/genproto/googleapis/rpc v0.0.0-20240412170617-26222e5d3d56
 	google.golang.org/grpc v1.63.2
@@ -17,7 +18,6 @@ require (
 	github.com/klauspost/compress v1.17.5 // indirect
 	github.com/lxzan/gws v1.8.2 // indirect
 	golang.org/x/exp v0.0.0-20240409090435-93d18d7e34b8 // indirect
-	golang.org/x/net v0.24.0 // indirect
 	golang.org/x/sys v0.19.0 // indirect
 	golang.org/x/text v0.14.0 // indirect
 )
